@@ -2,6 +2,8 @@ import Tw.Model.ServerBrowse
 import Tw.Proofs.ServerBrowse
 import Tw.Proofs.ServerBrowseOrder
 import Tw.Proofs.ServerBrowseMerge
+import Tw.Proofs.ServerBrowseRepaired
+import Tw.Proofs.ServerBrowseEncode
 import Tw.Gen.Browse
 
 /-!
@@ -213,6 +215,81 @@ theorem repeated_first_part_is_harmless :
     witnessEx.result [0, 0, 1] = some witnessEx.completeInfo ∧
     witnessLegacy.result [0, 0, 1, 0] = some witnessLegacy.completeInfo := by
   decide
+
+/-! ## Round trip through a reference encoder
+
+`encInfo` / `encMore` (in `Proofs/ServerBrowseEncode.lean`) write an info the way a server does:
+decimal texts (`%d`) or varints, NUL-terminated strings, fields in wire order per version.  They are
+specification-level (the library has no writer for these packets).  `HeadOk` / `ClientOk` say that
+every field is representable (NUL-free valid UTF-8 within the capacity, integers in `i32`, counts
+passing the receiver's sanity check, `u32` crc, non-negative size, flags 0/1 where the wire only
+carries `is_player`). -/
+
+/-- Every representable info of a normal kind (all but `iex+`) parses back to itself, with the mask
+of its clients' slots (`iext`: bit 0; `dtsf`: slots `offset ..`; others: none). -/
+theorem roundtrip_normal (k : InfoKind) (hk : k ≠ .info6ExMore) (i : ServerInfo) (offset : Nat)
+    (h : HeadOk k i offset) (hc : ∀ c ∈ i.clients, ClientOk k c)
+    (hslots : k = .info664 → offset + i.clients.length ≤ RECEIVED_BITS) :
+    parsePartial k (encInfo k i offset) = .ok (some { info := i, received := maskFor k offset i.clients.length }) :=
+  parsePartial_encInfo (by decide) k hk i offset h hc hslots
+
+/-- … an `iex+` packet with packet number 1..63 to the default info carrying its clients and the bit
+of its number … -/
+theorem roundtrip_more (token : Int) (htok : Tw.Packer.inI32 token) (no : Nat) (hlo : 1 ≤ no) (hhi : no < 64)
+    (cs : List ClientInfo) (hc : ∀ c ∈ cs, ClientOk .info6ExMore c) :
+    parsePartial .info6ExMore (encMore token no cs)
+      = .ok (some { info := (moreHdr token).withClients cs, received := 1 <<< no }) :=
+  parsePartial_encMore (by decide) (by decide) token htok no hlo hhi cs hc
+
+/-- … and the single-packet parsers (`Info5/6/6Ddper/7Response::parse`) return the info with its
+clients sorted. -/
+theorem roundtrip_full (k : InfoKind) (hk : k ≠ .info6ExMore) (i : ServerInfo) (offset : Nat)
+    (h : HeadOk k i offset) (hc : ∀ c ∈ i.clients, ClientOk k c)
+    (hslots : k = .info664 → offset + i.clients.length ≤ RECEIVED_BITS) :
+    parseFull k (encInfo k i offset) = .ok (some { i with clients := sortClients i.clients }) :=
+  parseFull_encInfo (by decide) k hk i offset h hc hslots
+
+/-- The accumulator values `Family.part i` that the merge theorems talk about are exactly what the
+parser returns for the datagrams of a well-formed, representable family — for all families, not
+only the concrete ones below. -/
+theorem roundtrip_family_parts (f : Family) (hwf : f.WellFormed) (henc : f.Encodable) (i : Nat) (hi : i < f.size) :
+    parsePartial (f.kind i) (f.encodePart i) = .ok (some (f.part i)) :=
+  f.parse_encodePart (by decide) (by decide) (by decide) hwf henc i hi
+
+-- non-vacuity: both concrete families are representable, and their encodings are byte for byte the
+-- payloads of `corpus/browse/finding-d10-merge-repeat.txt`
+example : witnessEx.Encodable ∧ witnessLegacy.Encodable := ⟨witnessEx_encodable, witnessLegacy_encodable⟩
+example : witnessEx.encodePart 0 = witnessExMainBytes ∧ witnessEx.encodePart 1 = witnessExMoreBytes ∧
+    witnessLegacy.encodePart 0 = witnessLegacy0Bytes ∧ witnessLegacy.encodePart 1 = witnessLegacy1Bytes := by decide
+-- the reference encoder reproduces the payload of the repository's own test `parse_info_v7`
+example : encInfo .info7 witnessV7 0 = witnessV7Bytes ∧
+    parseFull .info7 witnessV7Bytes = .ok (some { witnessV7 with clients := sortClients witnessV7.clients }) := by decide
+example : decimal (-2147483648) = [45, 50, 49, 52, 55, 52, 56, 51, 54, 52, 56] ∧ decimal 0 = [48] := by decide
+
+/-! ### The hypothetical repair of D10 (statements about `mergeRepaired`, NOT about the code)
+
+`mergeRepaired` is `merge` plus the statement `self.received |= other.received` after the swap. The
+repository does not contain it (it would make the shipped test `parse_info_v6_ex` fail, see the D10
+record); these theorems only show that the missing mask update is the *only* obstacle to the full
+property. -/
+
+/-- `mergeRepaired` differs from the modelled `merge` in nothing but the mask of the accumulator -/
+theorem mergeRepaired_differs_only_in_mask (s o : PartialInfo) :
+    (mergeRepaired s o).1.info = (merge s o).1.info ∧ (mergeRepaired s o).2 = (merge s o).2 := by
+  unfold mergeRepaired merge
+  repeat' split
+  all_goals first | exact ⟨rfl, rfl⟩ | simp_all
+
+/-- With the mask update the full statement `C18_merge_full` holds (stated for `resultRepaired`, the
+fold of `mergeRepaired`): any order, any repetition, the result depends only on the set of parts. -/
+theorem C18_merge_full_holds_for_repaired_merge (f : Family) (hwf : f.WellFormed) (seq : List Nat)
+    (hne : seq ≠ []) (hr : ∀ i ∈ seq, i < f.size) :
+    f.resultRepaired seq = if f.Covers seq then some f.completeInfo else none :=
+  f.resultRepaired_spec hwf tie_get_info_requires_main seq hne hr
+
+example : witnessEx.resultRepaired [0, 1, 1] = some witnessEx.completeInfo ∧
+    witnessLegacy.resultRepaired [1, 0, 1, 1, 0] = some witnessLegacy.completeInfo ∧
+    witnessEx3.resultRepaired [0, 1, 1] = none := by decide
 
 -- non-vacuity: the hypotheses of `C18_merge_partial` are met by both concrete families, whose parts
 -- are what the parser returns for the datagrams of the corpus file, and the statement computes
